@@ -183,6 +183,7 @@ def exec (s : State) (args : List String) : State × List Event × String :=
       match s.get (decStr t) with
       | none => (s, [], "none")
       | some tg => (s, [], renderMeta tg)
+  | "own" :: _ => (s, [], "mon=ok")   -- object identity of what the cache stores and feeds vs the caller's notification: Go-side monitor
   | "rr" :: _ => (s, [], "mon=ok")    -- Remove of a target while its Reset is being announced: judged by the Go-side monitor only
   | "par" :: _ => (s, [], "mon=ok")   -- parallel writers of one target beside the refresh: judged by the Go-side monitor only
   | _ => (s, [], "bad-op")
